@@ -286,7 +286,7 @@ def generate(unit_dir, canary=False):
         item_id = (attrs.get("impl", "").split()[-1] + "::" if attrs.get("impl") else "") + attrs["name"]
         try:
             if attrs["kind"] == "region":
-                ex = X.extract_region(path, attrs["in"], attrs.get("impl"), attrs["from"], attrs["to"], int(attrs.get("from_nth", 0)), int(attrs.get("to_nth", 0)))
+                ex = X.extract_region(path, attrs["in"], attrs.get("impl"), attrs["from"], attrs["to"], int(attrs.get("from_nth", 0)), int(attrs.get("to_nth", 0)), attrs.get("to_exclusive") == "yes")
             else:
                 ex = X.extract(path, attrs["kind"], attrs["name"], attrs.get("impl"))
         except (X.ExtractError, FileNotFoundError, ValueError) as e:
